@@ -4,12 +4,12 @@ import LaytheVerif.Model.Signature
 request : `<F n | V n | D lo hi> ; <param kinds…> ; <f|m> ; <argument kinds…>`
 response: `civ=<r> sig=<r> arity=<r>`
 
-second engine `drv_sig frames`: `<start frames> ; <ops c|n|l|r …>` → `frames=<n> overflow=<count>` or `stuck`. -/
+second engine `drv_sig frames`: `<start frames> ; <cycle of ops c|n|l|r …>` → `overflow frames=<n> calls=<k> natives=<j>`
+(the cycle is repeated up to the first `Stack overflow.`), `unbounded frames=<n>` (fuel ran out) or `stuck`. -/
 open LaytheVerif.Gen LaytheVerif.Signature
 
-def parsePKind : String → Option PKind
-  | "object" => some .object | "bool" => some .bool | "number" => some .number
-  | "string" => some .string | "callable" => some .callable | _ => none
+/-- a parameter kind by the lower-cased name of its `ParameterKind` variant (the enum is regenerated) -/
+def parsePKind (s : String) : Option PKind := PKind.all.find? fun p => p.name.toLower == s
 
 def parseVKind : String → Option VKind
   | "nil" => some .nil | "bool" => some .bool | "number" => some .number
@@ -84,27 +84,38 @@ def stepSig (line : String) : String :=
 def parseOp : String → Option FrameOp
   | "c" => some .callLaythe | "n" => some .nativeEnter | "l" => some .nativeLeave | "r" => some .ret | _ => none
 
-def runFrames (s : FrameState) (ovf : Nat) : List FrameOp → Option (FrameState × Nat)
-  | [] => some (s, ovf)
+/-- counters of a run: frames admitted by `call_closure`/`call`, stub frames admitted by `call_native` -/
+structure Count where
+  calls : Nat := 0
+  natives : Nat := 0
+
+/-- run `ops` up to the first `Stack overflow.`; `inr` = the state and counters at the overflow -/
+def runFrames (s : FrameState) (c : Count) : List FrameOp → Option ((FrameState × Count) ⊕ (FrameState × Count))
+  | [] => some (.inl (s, c))
   | op :: ops => match frameStep s op with
-    | some (s', .stackOverflow) => runFrames s' (ovf + 1) ops
-    | some (s', .ok) => runFrames s' ovf ops
+    | some (s', .stackOverflow) => some (.inr (s', c))
+    | some (s', .ok) =>
+      runFrames s' (match op with
+        | .callLaythe => { c with calls := c.calls + 1 }
+        | .nativeEnter => { c with natives := c.natives + 1 }
+        | _ => c) ops
     | none => none
 
-/-- recursion shape: `prefix` Laythe frames above the script frame, then a cycle of ops repeated until the
-    first stack overflow or `limit` cycles; reports whether the limit error is reached -/
-def cycleRun (cycle : List FrameOp) : Nat → FrameState → String
-  | 0, s => s!"unbounded frames={s.frames}"
-  | fuel + 1, s =>
-    match runFrames s 0 cycle with
+/-- recursion shape: `start` frames on the fiber, then a cycle of ops repeated until the first stack overflow or
+    until the fuel runs out; reports the frame count at the overflow and how many frames of each sort were admitted -/
+def cycleRun (cycle : List FrameOp) : Nat → FrameState → Count → String
+  | 0, s, _ => s!"unbounded frames={s.frames}"
+  | fuel + 1, s, c =>
+    match runFrames s c cycle with
     | none => "stuck"
-    | some (s', ovf) => if ovf > 0 then s!"overflow frames={s.frames}" else cycleRun cycle fuel s'
+    | some (.inr (s', c')) => s!"overflow frames={s'.frames} calls={c'.calls} natives={c'.natives}"
+    | some (.inl (s', c')) => cycleRun cycle fuel s' c'
 
 def stepFrames (line : String) : String :=
   match (line.trimAscii.toString.splitOn ";").map (fun s => s.trimAscii.toString) with
   | [start, ops] =>
     match start.toNat?, allSome ((words ops).map parseOp) with
-    | some n, some ops => cycleRun ops 2000 { frames := n }
+    | some n, some ops => cycleRun ops 2000 { frames := n } {}
     | _, _ => "bad-op"
   | _ => "bad-op"
 
